@@ -9,6 +9,7 @@
                function; stored single outputs and learner elements are returned before any user call
   4 no-delete  nothing in the map modules deletes from a run folder except _cleanup_run_folder under `if cleanup`
   5 propagate  handle_error never returns normally (shared with C13)
+  7 loaded-marked  a function returning either a loaded (already picked) or a computed (raw) result marks the loaded case
   6 gate       the cleanup=False gate receives the values in the form in which they are recorded (no normalisation after the gate)
 """
 
@@ -155,9 +156,9 @@ def _existence_guarded(ctx: Ctx, fn: FuncInfo, node: ast.AST, target: str) -> bo
     """`node` in `fn` only executes when `<target>.is_file()` / `.exists()` held (enclosing if / ifexp / early exit)."""
     d = Defs(fn)
     par = _parents(fn.node)
-    want = {f"{target}.is_file()", f"{target}.exists()"}
+    want = {f"{target}.is_file()", f"{target}.exists()", f"({target}).is_file()", f"({target}).exists()"}
     rt = norm(d.resolve(ast.parse(target, mode="eval").body)) if target else target
-    want |= {f"{rt}.is_file()", f"{rt}.exists()"}
+    want |= {f"{rt}.is_file()", f"{rt}.exists()", f"({rt}).is_file()", f"({rt}).exists()"}
     x = node
     while id(x) in par:
         child, x = x, par[id(x)]
@@ -355,28 +356,58 @@ def _conds_of(node: ast.AST, root: ast.AST) -> list[str]:
 
 
 def rule_no_delete(ctx: Ctx) -> None:
+    """Whatever deletes from a run folder in the map modules does so only when `cleanup` is true: every deleting statement
+    (found by effect, not by name) sits in a function with a `cleanup` parameter under conditions that require it, or in a
+    helper all of whose call sites do."""
     P, cg, eff = ctx.prog, ctx.cg, ctx.effects
-    dels = sorted(q for q in eff.sources(FS_DELETE) if P.functions[q].module.name.startswith("pipefunc.map") and "zarr" not in q)
-    extra = [q for q in dels if q != "pipefunc.map._run_info._cleanup_run_folder"]
-    ctx.add("4-no-delete", "pipefunc.map", "", not extra, "the only deleting function in the map modules is _cleanup_run_folder" if not extra else f"{extra} delete(s) from a run folder: completed results can disappear between runs", key="sources")
-    sites = cg.call_sites_of("pipefunc.map._run_info._cleanup_run_folder")
-    for s_ in sites:
-        f = s_.caller
+
+    def needs_cleanup(f: FuncInfo, node: ast.AST) -> bool | None:
         cfg = ctx.cfg(f)
-        n = cfg.node_containing(s_.node)
-        if n is None or "cleanup" not in f.param_names():
-            ctx.add("4-no-delete", f, s_.node, None, "UNDECIDED: call site not in a function with a `cleanup` parameter", key=f"under-cleanup {f.name}")
-            continue
+        n = cfg.node_containing(node)
+        if n is None:
+            return None
         ctrl = [(Defs(f).resolve(t_), truth) for t_, truth in cfg.controls(n)]
         atoms = sorted({a_ for t_, _tr in ctrl for a_ in bool_atoms(t_)} - {"cleanup"})[:8]
-        reachable_without = False
         for vals in itertools.product((True, False), repeat=len(atoms)):
             env = dict(zip(atoms, vals)) | {"cleanup": False}
             if all(bool_eval(t_, env) in (truth, None) for t_, truth in ctrl):
-                reachable_without = True
+                return False
+        return True
+
+    def judge(f: FuncInfo, node: ast.AST) -> bool | None:
+        """Walk up the callers until functions with a `cleanup` parameter are reached; each of them must guard the call."""
+        frontier = [(f, node)]
+        seen: set[str] = set()
+        verdicts: list[bool | None] = []
+        for _ in range(8):
+            nxt = []
+            for g, nd in frontier:
+                if "cleanup" in g.param_names():
+                    verdicts.append(needs_cleanup(g, nd))
+                    continue
+                if g.qualname in seen:
+                    continue
+                seen.add(g.qualname)
+                nxt += [(s_.caller, s_.node) for s_ in cg.call_sites_of(g.qualname)]
+            frontier = nxt
+            if not frontier:
                 break
-        ctx.add("4-no-delete", f, s_.node, not reachable_without, "the folder is wiped only when cleanup is true" if not reachable_without else
-                "the run folder can be wiped although cleanup=False: the conditions that control the call do not all require `cleanup`", key=f"under-cleanup {f.name}")
+        if not verdicts:
+            return False  # a deletion that no `cleanup` flag anywhere up the call chain controls
+        if any(v is False for v in verdicts):
+            return False
+        return True if all(v is True for v in verdicts) and not frontier else None
+
+    n_del = 0
+    for q in sorted(q for q in eff.sources(FS_DELETE) if P.functions[q].module.name.startswith("pipefunc.map") and "zarr" not in q):
+        f = P.functions[q]
+        for node in eff.direct_of(q, FS_DELETE):
+            n_del += 1
+            v = judge(f, node)
+            ctx.add("4-no-delete", f, node, v, "the folder is wiped only when cleanup is true" if v else
+                    ("the run folder can be wiped although cleanup=False: the conditions that control the deletion do not all require `cleanup`" if v is False else
+                     "UNDECIDED: the deletion is not (only) reached from a function with a `cleanup` parameter"), key=f"under-cleanup {f.name}")
+    ctx.floor("4-no-delete", n_del, 1)
 
 
 def rule_propagate(ctx: Ctx) -> None:
@@ -468,13 +499,48 @@ def rule_three_valued(ctx: Ctx) -> None:
     ctx.floor("6-gate.three-valued", n, 2)
 
 
+def rule_loaded_is_marked(ctx: Ctx) -> None:
+    """What is loaded from the store on resume is ONE VALUE PER OUTPUT NAME (already picked); what a function returns when it
+    runs is the raw result, from which `output_picker` picks.  A function that can hand back either kind through the same return
+    channel must mark the loaded case (wrap it in a type the consumer recognises); otherwise the consumer picks from already
+    picked values - harmless with the positional default picker, a TypeError (or a wrong element) with a custom one."""
+    P = ctx.prog
+    RUN_ = "pipefunc.map._run"
+    pickers = [f for f in P.functions_in(RUN_) if any(isinstance(c, ast.Call) and isinstance(c.func, ast.Attribute) and c.func.attr == "output_picker" and c.args and isinstance(c.args[0], ast.Name) and c.args[0].id in f.param_names()
+                                                      for c in ast.walk(f.node))]
+    loader_q = f"{RUN_}._load_from_store"
+    n = 0
+    for f in P.functions_in(RUN_):
+        if f.qualname == loader_q:
+            continue
+        loaded_names: set[str] = set()
+        for a in walk_no_nested(f.node):
+            if isinstance(a, ast.Assign) and isinstance(a.value, ast.Call) and any(c.qualname == loader_q for c in ctx.cg.resolve_callable(f, a.value.func)):
+                loaded_names |= {x.id for t in a.targets for x in ast.walk(t) if isinstance(x, ast.Name)}
+        if not loaded_names:
+            continue
+        rets = [r for r in walk_no_nested(f.node) if isinstance(r, ast.Return) and r.value is not None]
+        bare = [r for r in rets if (isinstance(r.value, ast.Name) and r.value.id in loaded_names) or (isinstance(r.value, (ast.Attribute, ast.Subscript)) and isinstance(r.value.value, ast.Name) and r.value.value.id in loaded_names)]
+        marked = [r for r in rets if isinstance(r.value, ast.Call) and dotted(r.value.func).lstrip("_")[:1].isupper() and any(isinstance(x, ast.Name) and x.id in loaded_names for x in ast.walk(r.value))]
+        computed = [r for r in rets if r not in bare and r not in marked and isinstance(r.value, ast.Call)]
+        if not (bare or marked) or not computed:
+            continue
+        n += 1
+        ctx.tri("7-loaded-marked", f, (bare or marked)[0], bool(marked) and not bare, bool(bare) and bool(pickers),
+                f"{f.name} marks what it loaded from the store ({norm(marked[0].value.func) if marked else ''}) before returning it next to computed results",
+                f"{f.name} returns what it loaded from the store (`{norm(bare[0]) if bare else ''}`) through the same channel as a computed result, and {pickers[0].name if pickers else '?'} applies output_picker to whatever arrives: "
+                "on resume a stored multi-output result is picked from a second time (TypeError with a custom output_picker)", "loaded / computed returns not classified", key=f"loaded-marked {f.name}")
+    ctx.floor("7-loaded-marked", n, 1)
+
+
 def check(ctx: Ctx) -> None:
-    for rule in (rule_atomic, rule_guarded, rule_missing, rule_no_delete, rule_propagate, rule_gate_like_with_like, rule_three_valued):
+    for rule in (rule_atomic, rule_guarded, rule_missing, rule_no_delete, rule_propagate, rule_gate_like_with_like, rule_three_valued, rule_loaded_is_marked):
         ctx.run(rule)
 
 
 U, RIF, R, D, A = "pipefunc/_utils.py", "pipefunc/map/_run_info.py", "pipefunc/map/_run.py", "pipefunc/map/_storage_array/_dict.py", "pipefunc/map/adaptive.py"
 MUTANTS = [
+    Mutant("loaded-returned-bare-F40", R, "        return _StoredOutputs(tuple(output) if isinstance(func.output_name, tuple) else (output,))\n", "        return output\n", ("C05.7-loaded-marked",), why="original F40"),
     Mutant("gate-before-construct-F37", RIF, "        # The previous run info stores the constructed internal shapes, compare like with like\n        internal_shapes = _construct_internal_shapes(internal_shapes, pipeline)\n        if run_folder is not None:\n            if cleanup:\n                _cleanup_run_folder(run_folder)\n            else:\n                _compare_to_previous_run_info(pipeline, run_folder, inputs, internal_shapes)\n        _check_inputs(pipeline, inputs)\n",
            "        if run_folder is not None:\n            if cleanup:\n                _cleanup_run_folder(run_folder)\n            else:\n                _compare_to_previous_run_info(pipeline, run_folder, inputs, internal_shapes)\n        _check_inputs(pipeline, inputs)\n        internal_shapes = _construct_internal_shapes(internal_shapes, pipeline)\n", ("C05.6-gate",), why="original F37"),
     Mutant("dump-in-place-F06", U, "    with atomic_write(path, \"wb\") as f:\n        cloudpickle.dump(obj, f)\n", "    with path.open(\"wb\") as f:\n        cloudpickle.dump(obj, f)\n", ("C05.1-atomic",), why="original F06"),
@@ -494,7 +560,7 @@ MUTANTS = [
     Mutant("first-array-mask-only", R, "    masks = (arr.mask_linear() for arr in arrays)\n", "    masks = (arr.mask_linear() for arr in arrays[:1])\n", ("C05.3-missing",), why="seeded C05/2"),
     Mutant("resubmit-everything", R, "r = _maybe_parallel_map(func, args.process_index, args.missing, executor, status, progress)", "r = _maybe_parallel_map(func, args.process_index, [*args.existing, *args.missing], executor, status, progress)", ("C05.3-missing",)),
     Mutant("all-missing-instead-of-any", R, "        if any(mask_values):  # rerun if any of the outputs are missing\n", "        if all(mask_values):  # rerun if any of the outputs are missing\n", ("C05.3-missing",)),
-    Mutant("single-recomputes", R, "    output, exists = _load_from_store(func.output_name, store, return_output=True)\n    if exists:\n        return output\n\n    # Otherwise, run the function\n", "", ("C05.3-missing",)),
+    Mutant("single-recomputes", R, "    output, exists = _load_from_store(func.output_name, store, return_output=True)\n    if exists:\n        # One value per output name; do not let `output_picker` pick from it again\n        return _StoredOutputs(tuple(output) if isinstance(func.output_name, tuple) else (output,))\n\n    # Otherwise, run the function\n", "", ("C05.3-missing",)),
     Mutant("learner-recomputes", A, "    if all(arr.has_index(index) for arr in arrays):\n        if not return_output:\n            return None\n        return tuple(arr.get_from_index(index) for arr in arrays)\n", "", ("C05.3-missing",)),
     Mutant("rmtree-without-cleanup", RIF, "            if cleanup:\n                _cleanup_run_folder(run_folder)\n            else:\n", "            if cleanup or not RunInfo.path(run_folder).is_file():\n                _cleanup_run_folder(run_folder)\n            else:\n", ("C05.4-no-delete",)),
     Mutant("filearray-deletes-stale", "pipefunc/map/_storage_array/_file.py", "        key = self._normalize_key(key, for_dump=True)\n        if not any(isinstance(k, slice) for k in key):\n            dump(value, self._key_to_file(key))  # type: ignore[arg-type]\n",
